@@ -201,3 +201,4 @@ func vfSprint(args ...interface{}) string { return fmt.Sprint(args...) }
 
 // vfHooks is filled by generated hook files (native replay of replaced callees).
 var vfHooks = map[string]func(f interface{}){}
+
